@@ -88,7 +88,12 @@ func (vc *FuncVC) Verify() (err error) {
 		fr.regs[p] = vc.freshValue(st, "p."+p.Name(), p.Type())
 	}
 	for _, fv := range fn.FreeVars {
-		fr.regs[fv] = vc.freshValue(st, "fv."+fv.Name(), fv.Type())
+		v := vc.freshValue(st, "fv."+fv.Name(), fv.Type())
+		if t, ok := v.(Term); ok && t.Sort == SRef {
+			// captured variables live in cells that always exist
+			st.assume(Not(Eq(t, tNull)))
+		}
+		fr.regs[fv] = v
 	}
 	vc.translateAxioms()
 	vc.entry = st.snapshot()
